@@ -151,7 +151,28 @@ fn op_parse_src(prop: &str, line: &str, args: &[SExp]) -> CaseResult {
                     let script = Script::new(evs.clone(), false);
                     let parked = script.parked.clone();
                     match run(async move { AsyncIppParser::new(AsyncIppReader::new(script)).parse().await }, &parked, 10_000_000) {
-                        Ok(Ok(r)) => Some(drain_payload(r.into_payload())),
+                        Ok(Ok(r)) => {
+                            // alternate between the blocking and the async side of the payload
+                            if all.len() % 2 == 0 {
+                                Some(drain_payload(r.into_payload()))
+                            } else {
+                                let mut p = r.into_payload();
+                                let parked2 = std::sync::Arc::new(std::sync::Mutex::new(vec![]));
+                                run(async move {
+                                    let mut out = vec![];
+                                    let mut buf = [0u8; 777];
+                                    loop {
+                                        match AsyncReadExt::read(&mut p, &mut buf).await {
+                                            Ok(0) => break,
+                                            Ok(n) => out.extend_from_slice(&buf[..n]),
+                                            Err(e) if e.kind() == std::io::ErrorKind::Interrupted => continue,
+                                            Err(_) => break,
+                                        }
+                                    }
+                                    out
+                                }, &parked2, 10_000_000).ok()
+                            }
+                        }
                         _ => None,
                     }
                 } else {
